@@ -37,3 +37,42 @@ package blockstore
 //@   ensures finalized [C04]: err == nil ==> b.finalized
 //@   ensures closed_err [C04]: !b.opts.WriteAsCarV1 && old(b.ronly.closed) ==> err != nil && writes(b.f) == old(writes(b.f))
 //@   ensures twice_err [C04]: !b.opts.WriteAsCarV1 && !old(b.ronly.closed) && old(b.finalized) ==> err != nil && writes(b.f) == old(writes(b.f))
+
+//@ func (*ReadOnly).Has
+//@   requires unlocked [C08]: held(b.mu) == 0
+//@   let _, idok, iderr := call[store.IsIdentity#0]
+//@   let _, _, size, ferr := call[store.FindCid#0]
+//@   call[store.FindCid#0] assert args [C07]: ref(arg0) == ref(b.backing) && ref(arg1) == ref(b.idx) && arg2 == key && arg3 == b.opts.BlockstoreUseWholeCIDs && arg4 == b.opts.ZeroLengthSectionAsEOF && arg5 == b.opts.MaxAllowedSectionSize && arg6 == false
+//@   call[store.FindCid#0] assert locked [C08]: held(b.mu) == 1
+//@   call[store.FindCid#0] assert open [C04]: !b.closed
+//@   ensures identity [C04,C07]: !b.opts.StoreIdentityCIDs && iderr == nil && mhtype(key) == 0 ==> result0 && err == nil
+//@   ensures closed_err [C04]: old(b.closed) && (b.opts.StoreIdentityCIDs || (iderr == nil && mhtype(key) != 0)) ==> err == errClosed && !result0
+//@   ensures lookup [C07]: !old(b.closed) && (b.opts.StoreIdentityCIDs || (iderr == nil && mhtype(key) != 0)) && ferr == nil ==> err == nil && result0 == (size > -1)
+//@   ensures notfound [C07]: !old(b.closed) && (b.opts.StoreIdentityCIDs || (iderr == nil && mhtype(key) != 0)) && ferr == index.ErrNotFound ==> err == nil && !result0
+//@   ensures released [C08]: held(b.mu) == 0
+
+//@ func (*ReadOnly).Get
+//@   requires unlocked [C08]: held(b.mu) == 0
+//@   let _, idok, iderr := call[store.IsIdentity#0]
+//@   let data, _, _, ferr := call[store.FindCid#0]
+//@   call[store.FindCid#0] assert args [C07]: ref(arg0) == ref(b.backing) && ref(arg1) == ref(b.idx) && arg2 == key && arg3 == b.opts.BlockstoreUseWholeCIDs && arg4 == b.opts.ZeroLengthSectionAsEOF && arg5 == b.opts.MaxAllowedSectionSize && arg6 == true
+//@   call[store.FindCid#0] assert locked [C08]: held(b.mu) == 1
+//@   call[store.FindCid#0] assert open [C04]: !b.closed
+//@   call[blocks.NewBlockWithCid#0] assert identity_only_when_not_stored [C04,C07]: !b.opts.StoreIdentityCIDs && mhtype(key) == 0
+//@   ensures closed_err [C04]: old(b.closed) && (b.opts.StoreIdentityCIDs || (iderr == nil && mhtype(key) != 0)) ==> err == errClosed && result0 == nil
+//@   ensures lookup [C07]: !old(b.closed) && (b.opts.StoreIdentityCIDs || (iderr == nil && mhtype(key) != 0)) && ferr == nil && err == nil ==> blockdata(result0) == ref(data) && blockcid(result0) == ref(key)
+//@   ensures notfound [C07]: !old(b.closed) && (b.opts.StoreIdentityCIDs || (iderr == nil && mhtype(key) != 0)) && ferr == index.ErrNotFound ==> err != nil && result0 == nil
+//@   ensures released [C08]: held(b.mu) == 0
+
+//@ func (*ReadOnly).GetSize
+//@   requires unlocked [C08]: held(b.mu) == 0
+//@   let _, idok, iderr := call[store.IsIdentity#0]
+//@   let _, _, size, ferr := call[store.FindCid#0]
+//@   call[store.FindCid#0] assert args [C07]: ref(arg0) == ref(b.backing) && ref(arg1) == ref(b.idx) && arg2 == key && arg3 == b.opts.BlockstoreUseWholeCIDs && arg4 == b.opts.ZeroLengthSectionAsEOF && arg5 == b.opts.MaxAllowedSectionSize && arg6 == false
+//@   call[store.FindCid#0] assert locked [C08]: held(b.mu) == 1
+//@   call[store.FindCid#0] assert open [C04]: !b.closed
+//@   ensures identity_rule [C04,C07]: b.opts.StoreIdentityCIDs && !old(b.closed) && iderr == nil && err == nil ==> ferr == nil && result0 == size
+//@   ensures lookup [C07]: !old(b.closed) && iderr == nil && mhtype(key) != 0 && ferr == nil ==> err == nil && result0 == size
+//@   ensures notfound [C07]: !old(b.closed) && iderr == nil && mhtype(key) != 0 && ferr == index.ErrNotFound ==> err != nil && result0 == -1
+//@   ensures closed_err [C04]: old(b.closed) && iderr == nil && mhtype(key) != 0 ==> err == errClosed
+//@   ensures released [C08]: held(b.mu) == 0
